@@ -211,10 +211,16 @@ func stableCallee(ctx astmatcher.Ctx, lit *ast.FuncLit) bool {
 	}
 	// a generic function is a value only when it is explicitly instantiated:
 	// func(x int) int { return id(x) } cannot become `id`
+	// and only when all of its type arguments are given: conv[string] with conv[R, A any] can't infer A
 	if sig, ok := fn.Type().(*types.Signature); ok && sig.TypeParams().Len() > 0 {
-		switch call.Fun.(type) {
-		case *ast.IndexExpr, *ast.IndexListExpr:
-		default:
+		given := 0
+		switch fun := call.Fun.(type) {
+		case *ast.IndexExpr:
+			given = 1
+		case *ast.IndexListExpr:
+			given = len(fun.Indices)
+		}
+		if given != sig.TypeParams().Len() {
 			return false
 		}
 	}
